@@ -22,7 +22,6 @@ use corrlib::*;
 use grcov::parse_lcov;
 use serde_json::json;
 use std::collections::BTreeMap;
-use std::path::Path;
 use std::time::Duration;
 
 /// files that may exist below `srcroot/` (each with probability 3/4)
@@ -146,55 +145,10 @@ impl Opts {
     }
 }
 
-const F_REL_PREFIX: &str = "C05-relative-prefix-restripped";
-const F_SRC_NAME: &str = "C05-source-dir-name-restripped";
-const F_DOTDOT: &str = "C05-prefix-behind-dotdot-restripped";
-const F_ABS_BELOW: &str = "C05-abs-prefix-below-source-restripped";
+use crate::restrip::{self, RestripCfg, F_ABS_BELOW};
 
-/// The image of the reported path `k` under each re-stripping mechanism whose precise conditions
-/// hold for it (the file system is the chain's source tree):
-/// * C05-relative-prefix-restripped: `-p` is relative and `k` begins with its components;
-/// * C05-source-dir-name-restripped: `-s S`, `k` relative, begins with the last component of `S`,
-///   and `S/k` is not a file on disk;
-/// * C05-prefix-behind-dotdot-restripped: `-p P` absolute, `k` absolute and below `P` as spelled;
-/// * C05-abs-prefix-below-source-restripped: `-s S`, `-p P` absolute and strictly below `S`
-///   (`P = S/q`), `k` relative, begins with `q/`, and `S/k` exists on disk (so the next run's
-///   `add_results` canonicalises it to a path below `P`).
-fn images(k: &str, o: &Opts) -> Vec<(&'static str, String)> {
-    let mut v = vec![];
-    let strip = |k: &str, pre: &str| -> Option<String> {
-        let pre = pre.trim_end_matches('/');
-        k.strip_prefix(pre).and_then(|r| r.strip_prefix('/')).map(|r| r.to_string())
-    };
-    if let Some(p) = &o.prefix_dir {
-        if !p.starts_with('/') {
-            if let Some(r) = strip(k, p) {
-                v.push((F_REL_PREFIX, r));
-            }
-        } else if k.starts_with('/') {
-            if let Some(r) = strip(k, p) {
-                v.push((F_DOTDOT, r));
-            }
-        }
-    }
-    if let Some(s) = &o.source_dir {
-        let last = s.rsplit('/').next().unwrap_or("");
-        if !k.starts_with('/') && !last.is_empty() && !Path::new(s).join(k).is_file() {
-            if let Some(r) = strip(k, last) {
-                v.push((F_SRC_NAME, r));
-            }
-        }
-        if let Some(p) = &o.prefix_dir {
-            if let Some(q) = strip(p, s) {
-                if !q.is_empty() && !k.starts_with('/') && Path::new(s).join(k).exists() {
-                    if let Some(r) = strip(k, &q) {
-                        v.push((F_ABS_BELOW, r));
-                    }
-                }
-            }
-        }
-    }
-    v
+fn restrip_cfg(o: &Opts) -> RestripCfg<'_> {
+    RestripCfg { sd: o.source_dir.as_deref(), pd: o.prefix_dir.as_deref(), ignore: &o.ignore, keep: &o.keep, ine: o.ine, cli: true }
 }
 
 /// `Some(findings)` iff EVERY round-to-round difference is a record that kept its data and moved
@@ -214,24 +168,17 @@ fn classify(reports: &[String], o: &Opts) -> Option<Vec<&'static str>> {
                 continue;
             }
             let mut ok = false;
-            for (id, k2) in images(k, o) {
-                if b.get(&k2) == Some(v) && !taken.contains_key(&k2) {
-                    taken.insert(k2, ());
-                    if !used.contains(&id) {
-                        used.push(id);
-                    }
-                    ok = true;
-                    break;
+            let rc = restrip_cfg(o);
+            for (ids, k2) in restrip::images(k, &rc) {
+                let moved = b.get(&k2) == Some(v) && !taken.contains_key(&k2);
+                if moved {
+                    taken.insert(k2.clone(), ());
                 }
-                // with --ignore-not-existing the re-stripped path names no file any more (it is
-                // looked for below the source dir, or as it is): the record is dropped instead
-                let on_disk = match (&o.source_dir, k2.starts_with('/')) {
-                    (Some(s), false) => Path::new(s).join(&k2).exists(),
-                    _ => Path::new(&k2).exists(),
-                };
-                if o.ine && !on_disk && !b.contains_key(&k2) {
-                    if !used.contains(&id) {
-                        used.push(id);
+                if moved || (!b.contains_key(&k2) && restrip::dropped(&k2, &rc)) {
+                    for id in ids {
+                        if !used.contains(&id) {
+                            used.push(id);
+                        }
                     }
                     ok = true;
                     break;
